@@ -50,6 +50,26 @@ def run(ck):
     res = run_schedules(ck, exe, cfg[:150 if not big else 600] + cfg[-3:])
     C03.analyse(ck, res, want=("trace", "output"))
     repeated_pipelines(ck)
+    # whole encryptions where the LAST chunk is the padding block alone (plaintext an exact chunk multiple) and more workers than
+    # chunks: that chunk belongs to the worker that owns its position - a fresh stream -, not to worker 0's running chain.  Which
+    # stream enciphered a chunk shows in the bytes (chaining modes), so the file is compared with the documented format
+    sdrv, senv = small_driver(ck), small_env(ck)
+    oc = []
+    for k in (1, 2, 3):
+        for T in (k + 1, k + 2, 16):
+            for cm in (1, 3):
+                oc.append(EncCase(k * CH, cm, (k + T) % 3, T, rnd_key(r), rnd_seed(r), rnd_bytes(r, k * CH), "exact-multiple/more-workers-than-chunks"))
+    ol = ["o%d %s" % (i, c.line()) for i, c in enumerate(oc)]
+    oi = wv.run_lines([sdrv], ol, env=senv)
+    osp = wv.run_lines([ck.model_driver(), "spec"], ol, env=senv)
+    for i, c in enumerate(oc):
+        ck.cov["evaluations"] += 1
+        head = split_impl(oi.get("o%d" % i, "(no output)"))[0]
+        if head != osp.get("o%d" % i):
+            ck.violation("the padding-only last chunk of a %d-chunk plaintext was not enciphered by the worker that owns its position (T=%d): the file differs from the documented format" % (c.n // CH, c.T),
+                         {"class": None, "case": c.line()[:2000], "implementation": head[:600], "spec": osp.get("o%d" % i, "")[:600], "chunk_bytes": CH})
+            break
+    ck.cov.setdefault("case_classes", {})["exact-multiple/more-workers-than-chunks"] = len(oc)
     if big:
         tsan(ck)
     return finish_proof(ck, rule="ownership monitor attached to every explored schedule of the real pipeline (events from the guarded hooks: critical-section outcomes with the buffer state, every get_entry / cmpstate / export / load): a worker access requires READY (or INV with nothing left), an I/O access requires EMPTY/UPDATING, a worker touches only its own buffer; the same schedules are replayed on the Coq transition system; thorough tier adds ThreadSanitizer runs on real threads. distinct = distinct (T, direction, length, schedule)",
